@@ -290,7 +290,7 @@ for np_ in NP:
                     pend, aborts = post(r.st)
                     present, ph1, votes1 = find_tx(pend, co.txid, r.st)
                     rs = r.st.env.get('clock_readings', [])
-                    timed = z3.Or([z3.UGT(c - co.started, co.timeout) for c in rs]) if rs else z3.BoolVal(False)
+                    timed = z3.Or([z3.UGE(c - co.started, co.timeout) for c in rs]) if rs else z3.BoolVal(False)      # at age == timeout either answer is fine
                     nott = z3.Or([z3.ULE(c - co.started, co.timeout) for c in rs]) if rs else z3.BoolVal(True)
                     ab = aborts.items(r.st)
                     ids = [a.fields[0].v for a in ab]
